@@ -48,8 +48,8 @@ def setup_worker():
 
 def plan(tier):
     if tier == "quick":
-        return [("sequences", {"mode": "seq"}, 2200, 50), ("cuts", {"mode": "cuts"}, 64, 4)]
-    return [("sequences", {"mode": "seq"}, 90000, 100), ("cuts", {"mode": "cuts"}, 2400, 10)]
+        return [("sequences", {"mode": "seq"}, 2200, 50), ("cuts", {"mode": "cuts"}, 64, 4), ("cuts-large", {"mode": "cuts", "large": 1}, 16, 1)]
+    return [("sequences", {"mode": "seq"}, 90000, 100), ("cuts", {"mode": "cuts"}, 2400, 10), ("cuts-large", {"mode": "cuts", "large": 1}, 400, 4)]
 
 
 def _q(s):
@@ -142,7 +142,7 @@ def scenario(ch, cfg):
         cl(f"f::.cli({PORT})")
         for i in range(nops):
             last = i == nops - 1
-            k = ch.weighted([6, 4, 4, 4, 2, 2, 2, 2, 1 if last else 0], "op")
+            k = ch.weighted([6, 4, 4, 4, 2, 2, 2, 2, 2, 1 if last else 0], "op")
             if k == 0:      # f("expr")
                 m = ch.weighted([5, 2, 2, 1, 1, 1], "expr")
                 if m == 0:
@@ -217,7 +217,11 @@ def scenario(ch, cfg):
                 both("dict-get", f"d?:{name}", lambda name=name: twin[KGSym(name)])
                 both("eval-after-dict-set", f'f("{name}")', lambda name=name: twin(name))
             elif k == 4:    # f(:var)
-                name = ch.pick(state["vars"], "var")
+                # a name bound on the server, or (1 in 4) one that is bound nowhere: evaluating it locally
+                # yields the symbol itself, and so must f(:name)
+                name = ch.pick(state["vars"], "var") if ch.draw(4, "unbound") else f"nosuch{ch.draw(3, 'nsx')}"
+                if name.startswith("nosuch"):
+                    stats["probe_unbound_symbol"] += 1
                 both("sym-value", f"f(:{name})", lambda name=name: twin(name))
             elif k == 5:    # remote function definition through the dictionary, then call through a proxy
                 if not state["dict"]:
@@ -242,6 +246,11 @@ def scenario(ch, cfg):
             elif k == 6:    # burst of concurrent Python-level calls on the same connection
                 nc = env.client.klong._context[KGSym("f")]
                 lits = [_arg_lit(ch, "burst") for _ in range(2 + ch.draw(2, "nburst"))]
+                if ch.draw(3, "burstbig") == 0:
+                    # one of the pipelined responses is larger than 64 KiB, so that the frame after it can sit in
+                    # the same read as its tail
+                    lits[ch.draw(len(lits), "bigpos")] = f"!{8300 + ch.draw(300, 'bigburst')}"
+                    stats["probe_big_response"] += 1
                 stats["probe_burst"] += 1
                 res = {}
 
@@ -266,6 +275,20 @@ def scenario(ch, cfg):
                     src, twin_src = ':_f("1%0")', ":_1%0"
                 stats["probe_undefined_transported"] += 1
                 both("undefined-test", src, lambda twin_src=twin_src: twin(twin_src))
+            elif k == 8:    # redefine a server function with another arity, fetch a proxy again, call it
+                name = ch.pick(sorted(n for n in state["fns"] if n in ("inc", "add", "tri")) or ["inc"], "rname")
+                if name not in state["fns"]:
+                    continue
+                new_ar = ch.pick([a for a in (1, 2, 3) if a != state["fns"][name]], "newar")
+                body = {1: "{x+1}", 2: "{x+y}", 3: "{(x+y)*z}"}[new_ar]
+                stats["probe_remote_fn_redefined_arity"] += 1
+                both("eval-string", f'f("{name}::{body}")', lambda name=name, body=body: twin(f"{name}::{body}"))
+                state["fns"][name] = new_ar
+                q = f"r{name}{i}"
+                both("proxy-create", f"{q}::f(:{name})", lambda name=name: twin(name))
+                args = [str(2 + ch.draw(20, "ran")) for _ in range(new_ar)]
+                both("proxy-call", f"{q}({';'.join(args)})", lambda name=name, args=args: twin(f"{name}({';'.join(args)})"))
+                state["proxies"].pop(name, None)
             else:           # failing expression (only as the last operation)
                 expr = ch.pick(["1+", "nosuchfn(1)", "[1 2 3]@99"], "bad")
                 stats["probe_server_error_last"] += 1
@@ -297,15 +320,29 @@ def scenario(ch, cfg):
 
 
 # ------------------------------------------------------------------- exhaustive cuts
+def _pdesc(m):
+    """cheap but exact descriptor of a decoded payload"""
+    import zlib
+    import numpy as np
+    if hasattr(m, "key"):
+        return ("dictget", m.key)
+    if isinstance(m, np.ndarray) and m.dtype != object:
+        return ("nd", m.dtype.str, m.shape, zlib.crc32(m.tobytes()))
+    return repr(canon(m))
+
+
 def scenario_cuts(ch, cfg):
     from klongpy import KlongInterpreter
     import klongpy.sys_fn_ipc as ipc
     kl = KlongInterpreter()
-    nframes = 1 + ch.draw(3, "nframes")
+    nframes = (2 + ch.draw(2, "nframes")) if cfg.get("large") else (1 + ch.draw(3, "nframes"))
     msgs = []
     for i in range(nframes):
         m = ch.weighted([4, 2, 1], "payload")
-        if m == 0:
+        if cfg.get("large") and i == 0:
+            # first frame larger than 64 KiB (a chunked reader must not swallow the head of the next frame)
+            payload = kl(f"!{8300 + ch.draw(200, 'large')}")
+        elif m == 0:
             payload = ch.pick([1, 0, "s", "", 2.5, None], "small")
         elif m == 1:
             payload = kl(ch.pick(['"hi"', "1%0", ":foo", "0ca", "[]"], "klsmall"))
@@ -314,7 +351,7 @@ def scenario_cuts(ch, cfg):
         msgs.append((_uuid.UUID(int=(0xF00D << 64) | (i + 1)), payload))
     stream = b"".join(ipc.encode_message(mid, p) for mid, p in msgs)
     L = len(stream)
-    want = [(mid, repr(canon(p)) if not hasattr(p, "key") else ("dictget", p.key)) for mid, p in msgs]
+    want = [(mid, _pdesc(p)) for mid, p in msgs]
     loop = asyncio.new_event_loop()
     violations = []
     n = 0
@@ -327,14 +364,31 @@ def scenario_cuts(ch, cfg):
             try:
                 while True:
                     mid, m = await ipc.stream_recv_msg(reader)
-                    out.append((mid, repr(canon(m)) if not hasattr(m, "key") else ("dictget", m.key)))
+                    out.append((mid, _pdesc(m)))
             except asyncio.IncompleteReadError as e:
                 out.append(("eof", len(e.partial)))
             except Exception as e:   # noqa - a decoding failure is an outcome to be judged, not a harness error
                 out.append(("exc", type(e).__name__))
 
-        for a in range(L + 1):
-            for b in range(a, L + 1):
+        if L <= 400:
+            positions = list(range(L + 1))
+        else:
+            # too long to enumerate: every cut position that is special for the framing or for a chunked reader -
+            # around the header fields and the end of every frame, and around multiples of 64 KiB
+            marks = {0, L}
+            off = 0
+            for mid, p in msgs:
+                flen = len(ipc.encode_message(mid, p))
+                for d in (0, 1, 15, 16, 17, 19, 20, 21, flen - 1, flen):
+                    marks.add(off + d)
+                off += flen
+            for kk in range(1, L // 65536 + 1):
+                for d in (-1, 0, 1):
+                    marks.add(kk * 65536 + d)
+                    marks.add(20 + kk * 65536 + d)
+            positions = sorted(x for x in marks if 0 <= x <= L)
+        for a in positions:
+            for b in [x for x in positions if x >= a]:
                 n += 1
                 reader = asyncio.StreamReader(loop=loop)
                 out = []
